@@ -306,11 +306,11 @@ func runFileScenario(t testing.TB, tr *tracer, o fileOpts, sc fileScenario, seed
 		case "ReadAt":
 			buf := make([]byte, c.Len)
 			n, cerr = f.ReadAt(buf, int64(c.Off))
-			delivered = buf[:max(n, 0)]
+			delivered = buf[:min(max(n, 0), len(buf))]
 		case "Read":
 			buf := make([]byte, c.Len)
 			n, cerr = f.Read(buf)
-			delivered = buf[:max(n, 0)]
+			delivered = buf[:min(max(n, 0), len(buf))]
 		case "WriteTo":
 			w := &captureW{}
 			var n64 int64
